@@ -190,8 +190,8 @@ Proof. intros gs h g' H. exists g'. split; [exact H|lia]. Qed.
 (* ================= the queue-side session invariant ================= *)
 (* w = max_prediction, d = the input delay of the local players; gs = per player (history, low) *)
 Record QSg (sp : bool) (w d : Z) (p : p2p) (gs : list ghost) : Prop := {
-  qs_w : 1 <= w /\ ps_maxpred p = w /\ s_maxpred (ps_sync p) = w;
-  qs_d : 0 <= d /\ w + d + 3 <= QLEN;
+  qs_w : 0 <= w /\ ps_maxpred p = w /\ s_maxpred (ps_sync p) = w;
+  qs_d : 0 <= d /\ Z.max 1 w + d + 3 <= QLEN;
   qs_mode : ps_running p = true /\ ps_sparse p = sp /\ ps_disc_frame p = NULL;
   qs_n : Z.of_nat (length gs) = ps_nplayers p /\ 0 < ps_nplayers p /\ length (ps_kinds p) = length gs /\
          length (ps_status p) = length gs;
@@ -200,7 +200,7 @@ Record QSg (sp : bool) (w d : Z) (p : p2p) (gs : list ghost) : Prop := {
   qs_qs : QsI (s_current (ps_sync p)) (s_last_confirmed (ps_sync p)) (s_queues (ps_sync p)) gs;
   qs_last : Forall2 (fun st g => cs_last st = hlen (fst g) - 1) (ps_status p) gs;
   qs_frames : -1 <= s_last_confirmed (ps_sync p) <= s_current (ps_sync p) /\ 0 <= s_current (ps_sync p) /\
-              s_current (ps_sync p) <= Z.max 0 (s_last_confirmed (ps_sync p)) + w;
+              s_current (ps_sync p) <= Z.max 0 (s_last_confirmed (ps_sync p)) + Z.max 1 w;
   qs_kinds : forall h k q gh, nth_error (ps_kinds p) h = Some k -> nth_error (s_queues (ps_sync p)) h = Some q ->
              nth_error gs h = Some gh -> KI (s_current (ps_sync p)) d k q (fst gh);
   qs_pending : forall h pi, assoc_get (ps_pending p) h = Some pi -> pi_frame pi = s_current (ps_sync p);
@@ -645,7 +645,7 @@ Lemma QS_resync : forall sp w d p gs s' gs',
   QSg sp w d p gs -> s_maxpred s' = s_maxpred (ps_sync p) ->
   QsI (s_current s') (s_last_confirmed s') (s_queues s') gs' ->
   map (fun g : ghost => hlen (fst g)) gs' = map (fun g : ghost => hlen (fst g)) gs ->
-  (-1 <= s_last_confirmed s' <= s_current s' /\ 0 <= s_current s' /\ s_current s' <= Z.max 0 (s_last_confirmed s') + w) ->
+  (-1 <= s_last_confirmed s' <= s_current s' /\ 0 <= s_current s' /\ s_current s' <= Z.max 0 (s_last_confirmed s') + Z.max 1 w) ->
   (forall h k q' gh', nth_error (ps_kinds p) h = Some k -> nth_error (s_queues s') h = Some q' ->
                       nth_error gs' h = Some gh' -> KI (s_current s') d k q' (fst gh')) ->
   (forall h pi, assoc_get (ps_pending p) h = Some pi -> pi_frame pi = s_current s') ->
@@ -973,12 +973,12 @@ Qed.
 
 (* dense saving: the rollback step is handle_rollback_progress *)
 Lemma dense_rollback : forall p gs g w d o cf,
-  QS w d p gs -> JI w p g -> s_last_confirmed (ps_sync p) <= cf -> exists p1 o1, HRpost p gs cf o p1 o1.
+  QS w d p gs -> JI w p g -> 1 <= w -> s_last_confirmed (ps_sync p) <= cf -> exists p1 o1, HRpost p gs cf o p1 o1.
 Proof.
-  intros p gs g w d o cf HQS HJI HLcf.
+  intros p gs g w d o cf HQS HJI Hw1p HLcf.
   pose proof HQS as [Hw Hd Hmode Hn Hconn Hgos HQ Hlast Hfr Hkinds Hpe Hsok].
   destruct Hw as (Hw1 & Hw2 & Hw3). destruct Hmode as (Hrun & Hsp & Hdf).
-  destruct Hn as (Hn1 & Hn2 & Hn3 & Hn4). destruct Hfr as (HfL & Hfc & Hfw).
+  destruct Hn as (Hn1 & Hn2 & Hn3 & Hn4). destruct Hfr as (HfL & Hfc & Hfw). rewrite (Z.max_r 1 w) in Hfw by lia.
   pose proof (QsI_length _ _ _ _ HQ) as Hlq.
   destruct HJI as [Jw Jmp Jfr Jcur Jroll]. destruct (Jroll ltac:(lia)) as (_ & Jm & Jcells).
   destruct (handle_rollback_progress predict p gs cf o g w (s_current (ps_sync p) - 1) Hsp Hconn ltac:(lia) Hdf HQ ltac:(lia) Hfc Hfw
@@ -991,7 +991,7 @@ Proof.
 Qed.
 
 Lemma rollback_confirm_progress : forall p gs g w d o,
-  QS w d p gs -> JI w p g -> Forall (fun c => cs_last c < I32MAX) (ps_status p) ->
+  QS w d p gs -> JI w p g -> 1 <= w -> Forall (fun c => cs_last c < I32MAX) (ps_status p) ->
   exists cf p1 o1 p2 o2 s3 gs3,
     confirmed_frame p = Ok cf /\
     handle_rollback_and_save predict p cf o = Ok (p1, o1) /\ p1 = with_sync p (ps_sync p1) /\
@@ -1004,9 +1004,9 @@ Lemma rollback_confirm_progress : forall p gs g w d o,
     Forall2 (fun q q' => q_pred q' = q_pred q /\ q_first_incorrect q' = q_first_incorrect q) (s_queues (ps_sync p1)) (s_queues s3) /\
     s_current (ps_sync p1) = s_current (ps_sync p).
 Proof.
-  intros p gs g w d o HQS HJI Hbnd.
+  intros p gs g w d o HQS HJI Hw1p Hbnd.
   destruct (rollback_confirm_gen false p gs w d o HQS Hbnd) as (cf & p1 & o1 & p2 & o2 & s3 & gs3 & A1 & A2 & A3 & A4 & A5 & A6 & A7 & A8 & A9 & A10 & A11 & A12 & A13 & A14 & _).
-  - intros cf _ HLcf _. exact (dense_rollback p gs g w d o cf HQS HJI HLcf).
+  - intros cf _ HLcf _. exact (dense_rollback p gs g w d o cf HQS HJI Hw1p HLcf).
   - exists cf, p1, o1, p2, o2, s3, gs3. repeat (split; [assumption|]). assumption.
 Qed.
 
@@ -1120,13 +1120,13 @@ Proof.
 Qed.
 
 Lemma advance_rollback_progress : forall p gs g w d o,
-  QS w d p gs -> JI w p g -> Forall (fun c => cs_last c < I32MAX) (ps_status p) ->
+  QS w d p gs -> JI w p g -> 1 <= w -> Forall (fun c => cs_last c < I32MAX) (ps_status p) ->
   (forall h, In h (local_handles p) -> exists pi, assoc_get (ps_pending p) h = Some pi) ->
   exists p' o' gs', advance_rollback_frame predict p o = Ok (p', o') /\ QS w d p' gs'.
 Proof.
-  intros p gs g w d o HQS HJI Hbnd Hpend.
+  intros p gs g w d o HQS HJI Hw1p Hbnd Hpend.
   destruct (advance_rollback_gen false p gs w d o HQS Hbnd Hpend) as (cf & p1 & o1 & p' & o' & gs' & _ & _ & _ & _ & A & B & _).
-  - intros cf _ HLcf _. exact (dense_rollback p gs g w d o cf HQS HJI HLcf).
+  - intros cf _ HLcf _. exact (dense_rollback p gs g w d o cf HQS HJI Hw1p HLcf).
   - exists p', o', gs'. split; [exact A|exact B].
 Qed.
 End ProgressB.
@@ -1151,11 +1151,11 @@ Qed.
 
 (* one advance_frame call of a session in C01's space never fails, and re-establishes the invariant *)
 Lemma advance_progress : forall p gs g w d,
-  QS w d p gs -> JI w p g -> Forall (fun c => cs_last c < I32MAX) (ps_status p) ->
+  QS w d p gs -> JI w p g -> 1 <= w -> Forall (fun c => cs_last c < I32MAX) (ps_status p) ->
   exists p' o r gs' g', advance predict p = Ok (p', o, r) /\ QS w d p' gs' /\
     exec w g (o_requests o) = Some g' /\ JI w p' g'.
 Proof.
-  intros p gs g w d HQS HJI Hbnd.
+  intros p gs g w d HQS HJI Hw1p Hbnd.
   assert (Hgoal : exists p' o r gs', advance predict p = Ok (p', o, r) /\ QS w d p' gs').
   { pose proof HQS as [Hw Hd Hmode Hn Hconn Hgos HQ Hlast Hfr Hkinds Hpe].
     destruct Hw as (Hw1 & Hw2 & Hw3). destruct Hmode as (Hrun & Hsp & Hdf).
@@ -1184,7 +1184,7 @@ Proof.
       - exists p, out0. split; [reflexivity|]. split; [exact HQS|]. split; [exact HJI|]. repeat split. }
     destruct Hfirst as (p1 & o1 & E1 & HQS1 & HJI1 & Hst1 & Hlh1 & Hpe1 & Hrm1). rewrite E1. cbn [res_bind].
     rewrite (update_disconnects_noop p1); [|rewrite Hst1; exact Hconn|rewrite Hrm1; exact Hgos]. cbn [res_bind].
-    destruct (advance_rollback_progress predict p1 gs g w d o1 HQS1 HJI1) as (p3 & o3 & gs3 & E3 & HQS3).
+    destruct (advance_rollback_progress predict p1 gs g w d o1 HQS1 HJI1 Hw1p) as (p3 & o3 & gs3 & E3 & HQS3).
     { rewrite Hst1. exact Hbnd. }
     { intros h Hin. rewrite Hpe1. apply Hpend. rewrite <- Hlh1. exact Hin. }
     rewrite E3. cbn [res_bind]. exists p3, o3, AOk, gs3. split; [reflexivity|exact HQS3]. }
@@ -1336,8 +1336,8 @@ Proof.
   unfold session_start, p2p_new, sync_new.
   constructor; cbn [with_running with_queues ps_maxpred ps_sync ps_running ps_sparse ps_spectators ps_disc_frame ps_nplayers
                     ps_kinds ps_status ps_remotes ps_pending s_maxpred s_current s_last_confirmed s_queues].
-  - split; [exact Hw|split; reflexivity].
-  - split; assumption.
+  - split; [lia|split; reflexivity].
+  - split; [assumption|lia].
   - assert (((w =? 0) && sp) = false) as -> by (assert ((w =? 0) = false) as -> by lia; reflexivity). repeat split.
   - rewrite !repeat_length. repeat split; lia.
   - apply Forall_forall. intros s Hs. apply repeat_spec in Hs. subst s. reflexivity.
@@ -1399,11 +1399,11 @@ Fixpoint srun_in (p : p2p) (ops : list sop) : res (p2p * list (pout * apires)) :
   end.
 
 Lemma step_in_space : forall p gs g w d o,
-  QS w d p gs -> JI w p g -> op_ok p o = true ->
+  QS w d p gs -> JI w p g -> 1 <= w -> op_ok p o = true ->
   exists s gs' g', sstep predict p o = Ok s /\ QS w d (sr_state s) gs' /\
     exec w g (o_requests (sr_out s)) = Some g' /\ JI w (sr_state s) g'.
 Proof.
-  intros p gs g w d o HQS HJI Hok. destruct o as [h v|pl f v|ep st|hs|h|h dd|]; cbn [op_ok] in Hok; try discriminate.
+  intros p gs g w d o HQS HJI Hw1p Hok. destruct o as [h v|pl f v|ep st|hs|h|h dd|]; cbn [op_ok] in Hok; try discriminate.
   - (* add_local_input *)
     destruct (local_progress _ w d p gs h v HQS) as (HQ' & Hs & Hsp & Hmp).
     cbn [sstep]. destruct (api_add_local_input p h v) as [p' r] eqn:E. cbn [fst] in *.
@@ -1429,7 +1429,7 @@ Proof.
       destruct (nth_error (ps_remotes p) (Z.to_nat ep)); [|apply p_frame_refl].
       unfold p_frame. cbn. split; [reflexivity|]. split; [reflexivity|apply sync_frame_refl].
   - (* advance_frame *)
-    destruct (advance_progress predict p gs g w d HQS HJI) as (p' & o & r & gs' & g' & E & HQ' & Ex & HJ').
+    destruct (advance_progress predict p gs g w d HQS HJI Hw1p) as (p' & o & r & gs' & g' & E & HQ' & Ex & HJ').
     { apply Forall_forall. intros s Hs. rewrite forallb_forall in Hok. specialize (Hok s Hs). lia. }
     cbn [sstep]. rewrite E. cbn [res_bind].
     exists (mksr p' o r), gs', g'. split; [reflexivity|]. cbn [sr_state sr_out]. split; [exact HQ'|]. split; [exact Ex|exact HJ'].
@@ -1438,17 +1438,17 @@ Qed.
 (* no modelled assert fires on any run inside the space, and the request lists of the whole run are
    executable by the game, one after the other *)
 Theorem run_in_space : forall ops p gs g w d,
-  QS w d p gs -> JI w p g ->
+  QS w d p gs -> JI w p g -> 1 <= w ->
   srun_in p ops = Err \/
   exists p' outs gs' g', srun_in p ops = Ok (p', outs) /\ srun predict p ops = Ok (p', outs) /\
     exec_outs w g outs = Some g' /\ QS w d p' gs' /\ JI w p' g'.
 Proof.
-  induction ops as [|o ops IH]; intros p gs g w d HQS HJI.
+  induction ops as [|o ops IH]; intros p gs g w d HQS HJI Hw1p.
   - right. exists p, [], gs, g. cbn [srun_in srun exec_outs]. split; [reflexivity|]. split; [reflexivity|]. split; [reflexivity|]. split; assumption.
   - cbn [srun_in srun]. destruct (op_ok p o) eqn:Hok; [|left; reflexivity].
-    destruct (step_in_space p gs g w d o HQS HJI Hok) as (s & gs1 & g1 & Es & HQ1 & Ex1 & HJ1).
+    destruct (step_in_space p gs g w d o HQS HJI Hw1p Hok) as (s & gs1 & g1 & Es & HQ1 & Ex1 & HJ1).
     rewrite Es. cbn [res_bind].
-    destruct (IH (sr_state s) gs1 g1 w d HQ1 HJ1) as [Herr|(p' & outs & gs' & g' & E1 & E2 & Ex & HQ' & HJ')].
+    destruct (IH (sr_state s) gs1 g1 w d HQ1 HJ1 Hw1p) as [Herr|(p' & outs & gs' & g' & E1 & E2 & Ex & HQ' & HJ')].
     + left. rewrite Herr. reflexivity.
     + right. rewrite E1, E2. cbn [res_bind].
       exists p', ((sr_out s, sr_api s) :: outs), gs', g'. split; [reflexivity|]. split; [reflexivity|].
